@@ -584,7 +584,227 @@ fn pack(core: &[Core], aux: &[Aux], pre: Option<&Vec<Core>>) -> Value {
     }
 }
 
+// ------------------------------------------------ Dwarf-level section identity
+/// Every section reader reachable through a public field / accessor of `Dwarf`.
+/// The pattern is exhaustive on purpose: a new field of `gimli::Dwarf` breaks the build
+/// of this harness instead of being silently left out.
+fn sections_of<R: Reader<Offset = usize>>(d: &gimli::Dwarf<R>) -> Vec<(gimli::SectionId, &R)> {
+    fn s<R: Reader, S: gimli::Section<R>>(x: &S) -> (gimli::SectionId, &R) {
+        (S::id(), x.reader())
+    }
+    let gimli::Dwarf {
+        debug_abbrev,
+        debug_addr,
+        debug_aranges,
+        debug_info,
+        debug_line,
+        debug_line_str,
+        debug_macinfo,
+        debug_macro,
+        debug_names,
+        debug_str,
+        debug_str_offsets,
+        debug_types,
+        locations: _, // LocationLists has no section accessors: observed through offset ids
+        ranges,
+        file_type: _,
+        sup: _,
+        abbreviations_cache: _,
+    } = d;
+    vec![
+        s(debug_abbrev),
+        s(debug_addr),
+        s(debug_aranges),
+        s(debug_info),
+        s(debug_line),
+        s(debug_line_str),
+        s(debug_macinfo),
+        s(debug_macro),
+        s(debug_names),
+        s(debug_str),
+        s(debug_str_offsets),
+        s(debug_types),
+        s(ranges.debug_ranges()),
+        s(ranges.debug_rnglists()),
+    ]
+}
+
+type Table = Vec<(String, Vec<u8>)>;
+fn table(v: &Value) -> Table {
+    v.as_array()
+        .map(|a| a.iter().map(|e| (e[0].as_str().unwrap_or("").to_string(), bytes_of(&e[1]))).collect())
+        .unwrap_or_default()
+}
+fn content(t: &Table, id: gimli::SectionId) -> Vec<u8> {
+    t.iter().find(|e| e.0 == id.name()).map(|e| e.1.clone()).unwrap_or_default()
+}
+
+/// What the Dwarf under test shows: its section views relative to the owner's memory, and
+/// for every probe (file, section, k) the result of `lookup_offset_id` / `format_error`
+/// for the offset id `mkid` makes at offset k of the OWNER's bytes of that section.
+fn observe_dwarf<R: Reader<Offset = usize>>(
+    d: &gimli::Dwarf<R>,
+    owner: &dyn Fn(bool, &str) -> Option<(usize, usize)>,
+    mkid: &dyn Fn(bool, &str, usize) -> Option<gimli::ReaderOffsetId>,
+    probes: &[Value],
+) -> (Vec<Value>, Vec<Value>) {
+    let mut views = Vec::new();
+    let files: Vec<(bool, &gimli::Dwarf<R>)> =
+        std::iter::once((false, d)).chain(d.sup().map(|x| (true, x))).collect();
+    for (is_sup, dw) in files {
+        for (id, r) in sections_of(dw) {
+            let (bytes, ptr, borrowed) = match r.to_slice() {
+                Ok(Cow::Borrowed(sl)) => {
+                    let p = match owner(is_sup, id.name()) {
+                        Some((base, len)) => rel(sl.as_ptr() as usize, base, len),
+                        None => -3,
+                    };
+                    (sl.to_vec(), p, true)
+                }
+                Ok(Cow::Owned(v)) => (v, -1, false),
+                Err(_) => (Vec::new(), -2, false),
+            };
+            views.push(json!({"sup": is_sup, "sec": id.name(), "bytes": bytes_json(&bytes), "ptr": ptr,
+                              "borrowed": borrowed}));
+        }
+    }
+    let mut out = Vec::new();
+    for p in probes {
+        let is_sup = p["sup"].as_bool().unwrap_or(false);
+        let sec = p["sec"].as_str().unwrap_or("");
+        let k = p["k"].as_u64().unwrap_or(0) as usize;
+        let (res, fmt) = match mkid(is_sup, sec, k) {
+            Some(id) => {
+                let res = match d.lookup_offset_id(id) {
+                    Some((sf, sid, off)) => json!([sf, sid.name(), off]),
+                    None => json!([]),
+                };
+                let err = Error::UnexpectedEof(id);
+                let plain = format!("{}", err);
+                let full = d.format_error(err);
+                (res, full.strip_prefix(&plain).unwrap_or(&full).to_string())
+            }
+            None => (json!("no-owner-memory"), String::new()),
+        };
+        out.push(json!({"sup": is_sup, "sec": sec, "k": k, "res": res, "fmt": fmt}));
+    }
+    (views, out)
+}
+
+#[allow(deprecated)]
+fn dwarf_case(case: &Value) -> Value {
+    use gimli::{DebugLoc, DebugLocLists, DebugRanges, DebugRngLists, LocationLists, RangeLists};
+    let how = case["how"].as_str().unwrap_or("");
+    let main = table(&case["main"]);
+    let sup = table(&case["sup"]);
+    let empty = Vec::new();
+    let probes = case["probes"].as_array().unwrap_or(&empty);
+    let en = RunTimeEndian::Little;
+    let mut loaded: Vec<&'static str> = Vec::new();
+    // owner memory by content (contents are distinct per section and file)
+    let find = |seen: &Vec<&[u8]>, is_sup: bool, sec: &str| -> Option<(usize, usize)> {
+        let t = if is_sup { &sup } else { &main };
+        let want = &t.iter().find(|e| e.0 == sec)?.1;
+        seen.iter().find(|s| **s == &want[..]).map(|s| (s.as_ptr() as usize, s.len()))
+    };
+    let slice_id = |seen: &Vec<&[u8]>, is_sup: bool, sec: &str, k: usize| -> Option<gimli::ReaderOffsetId> {
+        let t = if is_sup { &sup } else { &main };
+        let want = &t.iter().find(|e| e.0 == sec)?.1;
+        let s = seen.iter().find(|s| **s == &want[..])?;
+        if k > s.len() {
+            return None;
+        }
+        Some(EndianSlice::new(&s[k..], en).offset_id())
+    };
+    macro_rules! via_owned_dwarf {
+        ($mk:expr, $ty:ty) => {{
+            let mut owner: gimli::Dwarf<$ty> = gimli::Dwarf::load(|id| -> Result<$ty, ()> {
+                loaded.push(id.name());
+                Ok($mk(content(&main, id)))
+            })
+            .unwrap();
+            owner.load_sup(|id| -> Result<$ty, ()> { Ok($mk(content(&sup, id))) }).unwrap();
+            let mut seen: Vec<&[u8]> = Vec::new();
+            let d = owner.borrow(|v| {
+                seen.push(&v[..]);
+                EndianSlice::new(&v[..], en)
+            });
+            observe_dwarf(&d, &|f, s| find(&seen, f, s), &|f, s, k| slice_id(&seen, f, s, k), probes)
+        }};
+    }
+    let (views, pout) = match how {
+        "Dwarf<Vec>::borrow" => via_owned_dwarf!(|v: Vec<u8>| v, Vec<u8>),
+        "Dwarf<Rc>::borrow" => via_owned_dwarf!(|v: Vec<u8>| -> Rc<[u8]> { Rc::from(v) }, Rc<[u8]>),
+        "Dwarf<Arc>::borrow" => via_owned_dwarf!(|v: Vec<u8>| -> Arc<[u8]> { Arc::from(v) }, Arc<[u8]>),
+        "DwarfSections::borrow_with_sup" => {
+            let ms: gimli::DwarfSections<Vec<u8>> = gimli::DwarfSections::load(|id| -> Result<Vec<u8>, ()> {
+                loaded.push(id.name());
+                Ok(content(&main, id))
+            })
+            .unwrap();
+            let ss: gimli::DwarfSections<Vec<u8>> =
+                gimli::DwarfSections::load(|id| -> Result<Vec<u8>, ()> { Ok(content(&sup, id)) }).unwrap();
+            let mut seen: Vec<&[u8]> = Vec::new();
+            let d = ms.borrow_with_sup(Some(&ss), |v| {
+                seen.push(&v[..]);
+                EndianSlice::new(&v[..], en)
+            });
+            observe_dwarf(&d, &|f, s| find(&seen, f, s), &|f, s, k| slice_id(&seen, f, s, k), probes)
+        }
+        "Dwarf<EndianRcSlice>::load" => {
+            let mut keep: Vec<Rc<[u8]>> = Vec::new();
+            let mut d: gimli::Dwarf<gimli::EndianRcSlice<RunTimeEndian>> =
+                gimli::Dwarf::load(|id| -> Result<_, ()> {
+                    loaded.push(id.name());
+                    let rc: Rc<[u8]> = Rc::from(content(&main, id));
+                    keep.push(rc.clone());
+                    Ok(EndianReader::new(rc, en))
+                })
+                .unwrap();
+            d.load_sup(|id| -> Result<_, ()> {
+                let rc: Rc<[u8]> = Rc::from(content(&sup, id));
+                keep.push(rc.clone());
+                Ok(EndianReader::new(rc, en))
+            })
+            .unwrap();
+            let seen: Vec<&[u8]> = keep.iter().map(|r| &r[..]).collect();
+            let rc_id = |is_sup: bool, sec: &str, k: usize| -> Option<gimli::ReaderOffsetId> {
+                let t = if is_sup { &sup } else { &main };
+                let want = &t.iter().find(|e| e.0 == sec)?.1;
+                let rc = keep.iter().find(|r| &r[..] == &want[..])?;
+                if k > rc.len() {
+                    return None;
+                }
+                Some(EndianReader::new(rc.clone(), en).range_from(k..).offset_id())
+            };
+            observe_dwarf(&d, &|f, s| find(&seen, f, s), &rc_id, probes)
+        }
+        "Lists::borrow" => {
+            let get = |n: &str| main.iter().find(|e| e.0 == n).map(|e| e.1.clone()).unwrap_or_default();
+            let ll = LocationLists::new(DebugLoc::from(get(".debug_loc")), DebugLocLists::from(get(".debug_loclists")));
+            let rl = RangeLists::new(DebugRanges::from(get(".debug_ranges")), DebugRngLists::from(get(".debug_rnglists")));
+            loaded.extend([".debug_loc", ".debug_loclists", ".debug_ranges", ".debug_rnglists"]);
+            let mut seen: Vec<&[u8]> = Vec::new();
+            let mut d: gimli::Dwarf<EndianSlice<RunTimeEndian>> = gimli::Dwarf::default();
+            d.locations = ll.borrow(|v| {
+                seen.push(&v[..]);
+                EndianSlice::new(&v[..], en)
+            });
+            d.ranges = rl.borrow(|v| {
+                seen.push(&v[..]);
+                EndianSlice::new(&v[..], en)
+            });
+            observe_dwarf(&d, &|f, s| find(&seen, f, s), &|f, s, k| slice_id(&seen, f, s, k), probes)
+        }
+        _ => (vec![json!("bad-how")], Vec::new()),
+    };
+    json!({"loaded": loaded, "views": views, "probes": pout})
+}
+
 fn replay(case: &Value) -> Value {
+    if case["sys"] == "dwarf" {
+        return dwarf_case(case);
+    }
     let data = bytes_of(&case["buf"]);
     let le = case["le"].as_bool().unwrap_or(true);
     let mh = case["mh"].as_u64().unwrap_or(3) as usize;
